@@ -43,9 +43,9 @@ def runQuery (args : List Sexp) : Option String := do
       | .ok r => "ok " ++ renderRow r
       | .noSolution => "none"
       | .multipleSolutions => "multi"
-    return s!"{id} T {out} S {renderRows spec}"
+    return s!"{id}\tT\t{out}\tS\t{renderRows spec}"
   else
-    return s!"{id} R {renderRows (rows W D q)} S {renderRows spec}"
+    return s!"{id}\tR\t{renderRows (rows W D q)}\tS\t{renderRows spec}"
 
 def process (line : String) : String :=
   match Sexp.parse line with
